@@ -1,6 +1,14 @@
 """C11 — conditional compilation selects exactly the branches C semantics select."""
 import itertools
+import json
+import os
 import re
+import subprocess
+import sys
+from concurrent.futures import ThreadPoolExecutor
+
+sys.path.insert(0, os.path.join(os.path.dirname(os.path.dirname(os.path.abspath(__file__))), "tools"))
+import vlib  # noqa: E402
 
 T = "RsslVerif.Thm.C11."
 ALPHABET = "01dneElftD"
@@ -74,6 +82,147 @@ def search(ctx):
     return out
 
 
+class CountedSet(set):
+    """a set that also accounts for members known to be distinct without storing them (the exhaustive
+    enumeration produces 10^7 distinct requests in the thorough tier)"""
+    extra = 0
+
+    def __len__(self):
+        return set.__len__(self) + self.extra
+
+
+def _shard(ctx, idx, n, argv_base):
+    """one shard: harness -> file, requests -> rsslmodel -> file, streamed comparison; constant memory"""
+    tmp = os.path.join(vlib.BUILD, "tmp")
+    os.makedirs(tmp, exist_ok=True)
+    tag = "c11-%d-%d" % (os.getpid(), idx)
+    hpath, rpath, mpath = (os.path.join(tmp, tag + ext) for ext in (".harness", ".req", ".model"))
+    res = {"cases": 0, "seq": 0, "seq_nontrivial": 0, "other": [], "other_nontrivial": [], "skipped": 0,
+           "unsupported": 0, "disagreements": [], "n_disagreements": 0, "failures": {}, "n_failures": 0,
+           "stats": [], "samples": [], "error": None}
+    try:
+        with open(hpath, "w") as hf:
+            rc = subprocess.run([vlib.HARNESS_EXE] + argv_base + ["--shard", "%d/%d" % (idx, n)], cwd=vlib.ROOT,
+                                stdout=hf, stderr=subprocess.DEVNULL, env=vlib.ENV, timeout=3000).returncode
+        if rc != 0:
+            res["error"] = "harness shard %d exited with %d" % (idx, rc)
+        with open(hpath, errors="replace") as hf, open(rpath, "w") as rf:
+            for line in hf:
+                if line.startswith("CASE\t"):
+                    k = line.find("\t=>\t")
+                    if k > 0:
+                        rf.write(line[5:k] + "\n")
+        with open(rpath) as rf, open(mpath, "w") as mf:
+            rc = subprocess.run([vlib.MODEL_EXE], stdin=rf, stdout=mf, stderr=subprocess.DEVNULL, timeout=3000).returncode
+        if rc != 0:
+            res["error"] = "rsslmodel exited with %d on shard %d" % (rc, idx)
+        with open(hpath, errors="replace") as hf, open(mpath, errors="replace") as mf:
+            for line in hf:
+                if line.startswith("STAT\t"):
+                    try:
+                        res["stats"].append(json.loads(line[5:]))
+                    except ValueError:
+                        pass
+                    continue
+                if not line.startswith("CASE\t"):
+                    continue
+                k = line.find("\t=>\t")
+                if k < 0:
+                    continue
+                req = line[5:k]
+                tail = line[k + 4:].rstrip("\n").split("\t")
+                obs = tail[0]
+                orc = tail[1] if len(tail) > 1 else "ok"
+                mobs = mf.readline().rstrip("\n")
+                res["cases"] += 1
+                nt = nontrivial(req, obs)
+                if req.startswith("C11.seq"):
+                    res["seq"] += 1
+                    res["seq_nontrivial"] += 1 if nt else 0
+                else:
+                    res["other"].append(req)
+                    if nt:
+                        res["other_nontrivial"].append(req)
+                if len(res["samples"]) < 2 and res["cases"] % 99991 == 7:
+                    res["samples"].append({"request": req, "implementation": obs, "model": mobs, "oracle": orc})
+                if orc.startswith("SKIP"):
+                    res["skipped"] += 1
+                elif orc.startswith("FAIL"):
+                    res["n_failures"] += 1
+                    key = finding_key(req, obs, orc)
+                    lst = res["failures"].setdefault(key, [])
+                    if len(lst) < 3 and len(res["failures"]) < 200:
+                        lst.append((req, obs, orc))
+                if mobs.startswith("unsupported"):
+                    res["unsupported"] += 1
+                elif mobs != obs:
+                    res["n_disagreements"] += 1
+                    if len(res["disagreements"]) < 100:
+                        res["disagreements"].append((req, obs, mobs))
+    except Exception as e:  # noqa: BLE001
+        res["error"] = "shard %d: %s" % (idx, e)
+    finally:
+        for pth in (hpath, rpath, mpath):
+            try:
+                os.unlink(pth)
+            except OSError:
+                pass
+    return res
+
+
+def _merge_hist(total, part):
+    for k, v in part.items():
+        if isinstance(v, dict):
+            _merge_hist(total.setdefault(k, {}), v)
+        elif isinstance(v, (int, float)) and not isinstance(v, bool) and k != "exhaustive_max_len":
+            total[k] = total.get(k, 0) + v
+        else:
+            total[k] = v
+
+
+def custom(ctx):
+    """corpus through the standard path; generated cases in parallel shards with streamed comparison"""
+    if not ctx.harness_build():
+        return
+    corpus = os.path.join(vlib.ROOT, "corpus", "C11.txt")
+    if os.path.exists(corpus) and os.path.getsize(corpus) > 0:
+        cases, _ = ctx.run_harness(["c11", "--requests", corpus])
+        ctx.extra["corpus_cases"] = len(cases)
+        ctx.correspond(cases)
+    n = 12 if ctx.tier == "thorough" else 4
+    base = ["c11", "--tier", ctx.tier, "--seed", str(ctx.seed)]
+    distinct = CountedSet(ctx.distinct)
+    nontriv = CountedSet(ctx.nontrivial)
+    with ThreadPoolExecutor(max_workers=n) as ex:
+        results = list(ex.map(lambda i: _shard(ctx, i, n, base), range(n)))
+    merged = {}
+    total_fail = 0
+    for r in results:
+        if r["error"]:
+            ctx.broken.append(r["error"])
+        ctx.cases += r["cases"]
+        distinct.extra += r["seq"]
+        nontriv.extra += r["seq_nontrivial"]
+        distinct.update(r["other"])
+        nontriv.update(r["other_nontrivial"])
+        ctx.skipped += r["skipped"]
+        ctx.unsupported += r["unsupported"]
+        ctx.disagreements.extend(r["disagreements"])
+        total_fail += r["n_failures"]
+        for lst in r["failures"].values():
+            ctx.oracle_failures.extend(lst)
+        for st in r["stats"]:
+            _merge_hist(merged, st)
+        for smp in r["samples"]:
+            if len(ctx.samples) < 5:
+                ctx.samples.append(smp)
+    ctx.distinct, ctx.nontrivial = distinct, nontriv
+    ctx.stats.append(merged)
+    ctx.extra["oracle_failures_total"] = total_fail
+    ctx.extra["model_disagreements_total"] = sum(r["n_disagreements"] for r in results)
+    ctx.extra["shards"] = n
+
+
 SPEC = {
     "id": "C11",
     "gens": ["CondTables"],
@@ -89,6 +238,7 @@ SPEC = {
     "finding_key": finding_key,
     "shrink": shrink,
     "search": search,
+    "custom": custom,
     "level_text": "Proof: the model of ConditionChain + the gating of preprocess_command (built on the transition table, "
                   "gating table and error variants re-extracted from the source each run) is proved, for every nesting of "
                   "#if/#ifdef/#ifndef/#elif/#else/#endif groups of any depth and length, to keep exactly the text and macro "
